@@ -515,6 +515,7 @@ func runC09(c *Ctx) {
 		}
 	}
 
+	defer runC09EndInBody(c)
 	// ---------------------------------------------------------------- C09.5
 	c.Rule("C09.5", "a missing grpc-status is an error", 1)
 	ext := p.MustFunc("grpcExtractErrorFromTrailer")
@@ -547,6 +548,62 @@ func runC09(c *Ctx) {
 	})
 	c.Check(okMissing, "C09.5", FuncName(ext), "missing-status-is-error", ext.Pos(),
 		"an empty Grpc-Status yields a non-nil error", "a response without grpc-status is not turned into an error: a backend that dies before sending trailers looks successful")
+}
+
+// runC09EndInBody: C09.6.  For a server protocol whose end of stream travels in the body (its
+// envelope decoder yields trailer=true for some flag byte), the trailer-based end extraction is
+// reached only when the body ended WITHOUT that end frame: it must fail on every path.
+func runC09EndInBody(c *Ctx) {
+	p := c.P
+	c.Rule("C09.6", "a protocol whose end of stream is a frame in the body treats a body without that frame as an error", 2)
+	sph := p.Iface("serverProtocolHandler")
+	if sph == nil {
+		fatalf("anchor=serverProtocolHandler not found")
+	}
+	n := 0
+	for _, t := range p.Implementers(sph) {
+		if p.MethodOf(t, "decodeEnvelope") == nil {
+			continue
+		}
+		tab, err := decodeTable(p, t)
+		if err != nil {
+			c.Unknown("C09.6", typeName(t), "decode-table", token.NoPos, "envelope decoder could not be folded: "+err.Error())
+			continue
+		}
+		endInBody := false
+		for b := 0; b < 256; b++ {
+			if tab[b].accepted && tab[b].trailer {
+				endInBody = true
+			}
+		}
+		if !endInBody {
+			continue
+		}
+		ext := p.MethodOf(t, "extractEndFromTrailers")
+		if ext == nil {
+			fatalf("anchor=%s.extractEndFromTrailers not found", typeName(t))
+		}
+		n++
+		ei := errorResultIndex(ext.Signature)
+		allErr, nRet := true, 0
+		ForEachInstr(ext, func(in ssa.Instruction) {
+			ret, ok := in.(*ssa.Return)
+			if !ok || ret.Block() == ext.Recover {
+				return
+			}
+			nRet++
+			rv := ReturnValues(ret)
+			if ei < 0 || ei >= len(rv) || !NeverNilError(rv[ei], 0) {
+				allErr = false
+			}
+		})
+		c.Check(allErr && nRet > 0, "C09.6", typeName(t), "no-end-frame-is-error", ext.Pos(),
+			"the end frame travels in the body; ending without it is reported as an error on every path",
+			"the end of stream of this protocol is a frame in the body, yet a body that ended without it is accepted (trailer-based extraction returns no error): a response cut at a frame boundary is relayed as a clean end")
+	}
+	if n == 0 {
+		c.Bad("C09.6", "serverProtocolHandler", "no-end-frame-is-error", token.NoPos, "no server protocol with an in-body end frame found: shape changed")
+	}
 }
 
 // substitutesPayload: the block assigns an explicit byte literal / quoted error
